@@ -1144,8 +1144,8 @@ fn mk_ab(r: &mut Rng) -> (Box<dyn ArrivalBound>, String) {
         0 => { let t = 1 + r.below(12); (Box::new(Periodic::new(d(t))), format!("Periodic({})", t)) }
         1 => { let t = 1 + r.below(12); let j = r.below(3 * t); (Box::new(Sporadic::new(d(t), d(j))), format!("Sporadic({},{})", t, j)) }
         // (delta-min prefixes that end in a plateau are left out: number_arrivals and steps_iter disagree there, known finding KF5)
-        2 => { let a = r.below(4); let b = a + r.below(5); let c = b + 1 + r.below(6); (Box::new(Curve::new(vec![d(a), d(b), d(c)])), format!("Curve[{},{},{}]", a, b, c)) }
-        3 => { let a = 1 + r.below(4); let b = a + r.below(5); let c = b + 1 + r.below(6); (Box::new(arrival::ExtrapolatingCurve::new(Curve::new(vec![d(a), d(b), d(c)]))), format!("ExtrapolatingCurve[{},{},{}]", a, b, c)) }
+        2 => { let a = r.below(4); let b = 2 * a + r.below(4); let c = a + b + 1 + r.below(5);   /* super-additive: only such prefixes are realisable */ (Box::new(Curve::new(vec![d(a), d(b), d(c)])), format!("Curve[{},{},{}]", a, b, c)) }
+        3 => { let a = 1 + r.below(4); let b = 2 * a + r.below(4); let c = a + b + 1 + r.below(5); (Box::new(arrival::ExtrapolatingCurve::new(Curve::new(vec![d(a), d(b), d(c)]))), format!("ExtrapolatingCurve[{},{},{}]", a, b, c)) }
         4 => { let t = 1 + r.below(12); let j = r.below(20); (Box::new(Propagated::with_jitter(&Sporadic::new(d(t), d(0)), d(j))), format!("Propagated(Sporadic({},0),{})", t, j)) }
         5 => { let t = 2 + r.below(9); let t2 = 2 + r.below(9); (Box::new(arrival::sum_of(Periodic::new(d(t)), Sporadic::new(d(t2), d(r.below(5))))), format!("sum_of(Periodic({}),Sporadic({},..))", t, t2)) }
         6 => (Box::new(arrival::Never {}), "Never".to_string()),
@@ -1176,7 +1176,7 @@ fn mk_ab_nested(r: &mut Rng, depth: u32) -> (Box<dyn ArrivalBound>, String) {
 /// cost_of_jobs(n) is the sum of the first n job costs; an RBF's job_cost_iter sums to service_needed
 fn check_queries(seed: u64) -> i32 {
     let mut r = Rng(seed ^ 0x9e11e5);
-    for _ in 0..600 {
+    for _ in 0..240 {
         let (ab, da) = mk_ab_nested(&mut r, 2);
         let (cm, dc) = mk_cm(&mut r);
         let desc = format!("{{\"arrival\": \"{}\", \"cost\": \"{}\"}}", da, dc);
@@ -1197,6 +1197,36 @@ fn check_queries(seed: u64) -> i32 {
             Ok(())
         });
         match res { Ok(Ok(())) => {}, Ok(Err(e)) => return fail("queries::model", desc, e, "the stated relation".into()), Err(e) => return fail("queries::model", desc, e, "no panic".into()) }
+        // C10: added jitter shifts the bound; C12: derived curves dominate the source and are exact on the covered prefix
+        let jj = r.below(12); let hz = 1 + r.below(40);
+        let res = guarded(|| -> Result<(), String> {
+            let cl = ab.clone_with_jitter(d(jj));
+            for delta in 1..=80u64 { if cl.number_arrivals(d(delta)) != ab.number_arrivals(d(delta + jj)) { return Err(format!("clone_with_jitter({}).number_arrivals({}) = {} != number_arrivals({}) = {}", jj, delta, cl.number_arrivals(d(delta)), delta + jj, ab.number_arrivals(d(delta + jj)))); } }
+            if cl.number_arrivals(d(0)) != 0 { return Err("jittered clone: number_arrivals(0) != 0".into()); }
+            let acp = arrival::ArrivalCurvePrefix::from_arrival_bound_until(&ab, d(hz));
+            for delta in 0..=150u64 {
+                let (a, b) = (acp.number_arrivals(d(delta)), ab.number_arrivals(d(delta)));
+                let repetitive = da.contains("Curve[");   // see below (KF16 / KF20): beyond the horizon only for sources without a delta-min curve inside
+                if (a < b && !(repetitive && delta > hz)) || (delta <= hz && a != b) { return Err(format!("ArrivalCurvePrefix::from_arrival_bound_until(.., {}).number_arrivals({}) = {} vs source {}", hz, delta, a, b)); }
+            }
+            // sources that contain a delta-min curve continue beyond their own prefix by whole-prefix repetition; a derived curve
+            // continues differently and can be SMALLER there (known findings KF16 / KF20): for them only the covered prefix is compared
+            let repetitive = da.contains("Curve[");
+            if ab.number_arrivals(d(100_000)) > 0 {   // (a source that never releases anything has no delta-min curve: known finding KF14)
+                let cu = Curve::from_arrival_bound_until(&ab, d(hz));
+                let covered = ud(cu.min_distance(1_000_000).min(d(hz)));
+                for delta in 0..=150u64 {
+                    let (a, b) = (cu.number_arrivals(d(delta)), ab.number_arrivals(d(delta)));
+                    if (a < b && !(repetitive && delta >= covered)) || (delta < covered && a != b) {   /* at delta == the largest recorded distance a plateau-ended prefix over-counts: KF5 */ return Err(format!("Curve::from_arrival_bound_until(.., {}).number_arrivals({}) = {} vs source {}", hz, delta, a, b)); }
+                }
+                let n = 1 + (hz as usize % 6);
+                let cu2 = Curve::from_arrival_bound(&ab, n);
+                let cov2 = ud(cu2.min_distance(1_000_000));
+                for delta in 0..=150u64 { let (a, b) = (cu2.number_arrivals(d(delta)), ab.number_arrivals(d(delta))); if a < b && !(repetitive && delta >= cov2) { return Err(format!("Curve::from_arrival_bound(.., {}).number_arrivals({}) = {} < source {}", n, delta, a, b)); } }
+            }
+            Ok(())
+        });
+        match res { Ok(Ok(())) => {}, Ok(Err(e)) => return fail("queries::derived", format!("{{\"arrival\": \"{}\", \"jitter\": {}, \"horizon\": {}}}", da, jj, hz), e, "the stated relation".into()), Err(e) => return fail("queries::derived", format!("{{\"arrival\": \"{}\", \"jitter\": {}, \"horizon\": {}}}", da, jj, hz), e, "no panic".into()) }
         let rbf = RBF::new(ab, cm);
         let res = guarded(|| -> Result<(), String> {
             for delta in [0u64, 1, 2, 7, 30, 75] {
